@@ -566,57 +566,8 @@ pub fn run(toks: &[&str]) -> String {
 }
 
 // ------------------------------------------------------------------ oracles
-/// For binary AIGER: the input as the parser sees its lines, i.e. with the LF bytes inside the
-/// binary and-gate section not counting as line breaks.  None if the header cannot be decoded.
-fn aig_text_view(data: &[u8]) -> Option<Vec<u8>> {
-    let nl = data.iter().position(|&b| b == b'\n')?;
-    let head = std::str::from_utf8(&data[..nl]).ok()?;
-    let mut f = head.split(' ');
-    if f.next()? != "aig" { return None; }
-    let nums: Vec<usize> = f.map(|x| x.parse::<usize>()).collect::<Result<_, _>>().ok()?;
-    if nums.len() < 5 { return None; }
-    let get = |i: usize| nums.get(i).copied().unwrap_or(0);
-    let (l, o, a, b, c, j, fc) = (get(2), get(3), get(4), get(5), get(6), get(7), get(8));
-    let mut pos = nl + 1;
-    let mut next_line = |pos: &mut usize| -> Option<Vec<u8>> {
-        let e = data[*pos..].iter().position(|&x| x == b'\n')? + *pos;
-        let line = data[*pos..e].to_vec();
-        *pos = e + 1;
-        Some(line)
-    };
-    for _ in 0..l.checked_add(o)?.checked_add(b)?.checked_add(c)? { next_line(&mut pos)?; }
-    let mut jl = 0usize;
-    for _ in 0..j {
-        let line = next_line(&mut pos)?;
-        jl = jl.checked_add(std::str::from_utf8(&line).ok()?.parse::<usize>().ok()?)?;
-    }
-    for _ in 0..jl.checked_add(fc)? { next_line(&mut pos)?; }
-    let bs = pos;
-    'gates: for _ in 0..a.checked_mul(2)? {
-        loop {
-            // a truncated gate section: everything left is binary data
-            let Some(&byte) = data.get(pos) else { break 'gates; };
-            pos += 1;
-            if byte & 0x80 == 0 { break; }
-        }
-    }
-    let mut v = data.to_vec();
-    for x in &mut v[bs..pos] { if *x == b'\n' { *x = 0; } }
-    Some(v)
-}
-
-fn line_col_ok_for(parser: &str, data: &[u8], fin: &str) -> Option<String> {
-    let plain = line_col_ok(data, fin);
-    if plain.is_some() && parser == "aig" {
-        if let Some(v) = aig_text_view(data) {
-            if v != data && line_col_ok(&v, fin).is_none() {
-                return Some(format!("KNOWN[aig-binary-lf] {} (the location is consistent when the LF bytes inside the binary and-gate section are not counted as line breaks)", plain.unwrap()));
-            }
-        }
-    }
-    plain
-}
-
+/// The location oracle (bounds): every LF byte of the input is a line break, for every parser -- for binary AIGER too
+/// (flussab 530b52f: a byte 0x0A that ends a delta code of the and-gate section counts as a line break).
 fn line_col_ok(data: &[u8], fin: &str) -> Option<String> {
     // E(line,col): 1 <= line <= #lines + 1, 1 <= col <= len(line) + 1
     let inner = fin.strip_prefix("E(")?.strip_suffix(')')?;
@@ -687,7 +638,7 @@ pub fn oracle_c01(toks: &[&str]) -> String {
         return format!("FAIL one-shot and re-chunked runs differ at item {k}: one-shot [{} => {}] chunked [{} => {}]",
                        a.items.get(k).cloned().unwrap_or_default(), a.fin, b.items.get(k).cloned().unwrap_or_default(), b.fin);
     }
-    if let Some(w) = line_col_ok_for(&s.parser, &whole.data, &b.fin) {
+    if let Some(w) = line_col_ok(&whole.data, &b.fin) {
         return format!("FAIL {w} (final {})", b.fin);
     }
     if st.borrow().calls_after_terminal != 0 {
@@ -760,7 +711,7 @@ pub fn oracle_c05(toks: &[&str]) -> String {
     if peak > bound {
         return format!("FAIL peak heap {peak} bytes for {} input bytes (bound {bound})", s.data.len());
     }
-    if let Some(w) = line_col_ok_for(&s.parser, &s.data, &t.fin) {
+    if let Some(w) = line_col_ok(&s.data, &t.fin) {
         return format!("FAIL {w} (final {})", t.fin);
     }
     "PASS".into()
